@@ -32,18 +32,16 @@ def run_case(pattern, tree, full=True):
     target = B.tree_py(tree)
     before = B.snapshot(target)
     ctx = B.Ctx()
-    try:
-        specs = [B.mkspec(pattern, ctx) for _ in range(4)]
-    except vlib.MachineryError:
-        raise
-    except Exception as e:
-        raise vlib.MachineryError('cannot build the pattern %r: %r' % (pattern, e))
     obs = {}
-    obs['glom'] = B.observe(lambda: glom.glom(target, Match(specs[0])))
+
+    def call(name, fn, **kw):
+        spec, failed = B.build(pattern, ctx, wrap=lambda s: Match(s, **kw))
+        obs[name] = failed if failed else B.observe(lambda: fn(spec))
+    call('glom', lambda m: glom.glom(target, m))
     if full or obs['glom']['ok']:
-        obs['verify'] = B.observe(lambda: Match(specs[1]).verify(target))
-        obs['matches'] = B.observe(lambda: Match(specs[2]).matches(target))
-    obs['default'] = B.observe(lambda: glom.glom(target, Match(specs[3], default=DEFAULT)))
+        call('verify', lambda m: m.verify(target))
+        call('matches', lambda m: m.matches(target))
+    call('default', lambda m: glom.glom(target, m), default=DEFAULT)
     obs['unchanged'] = B.snapshot(target) == before
     return obs
 
